@@ -350,6 +350,12 @@ class BuiltinMixin:
 
     b_collections_defaultdict = b_defaultdict
 
+    def b_dataclasses_asdict(self, args, kwargs, line):
+        obj = args[0]
+        if not isinstance(obj, ObjV):
+            raise Unsupported("asdict of non-object")
+        return DictV(entries=[(StrV(s=k), v) for k, v in obj.fields.items()])
+
     def b_ext_OrderedDict(self, args, kwargs, line):
         return self.b_dict(args, kwargs, line)
 
